@@ -285,7 +285,11 @@ func rGenSegment(r *rand.Rand, o rGenOpts) string {
 	case k < 16:
 		return rLits[r.Intn(3)] + "." + rParams[r.Intn(len(rParams))]
 	case k < 18 && o.escaped:
-		switch r.Intn(8) {
+		switch r.Intn(10) {
+		case 8:
+			return rParams[r.Intn(len(rParams))] + `\:undelete` // a parameter followed by an escaped colon: all of it is the parameter's name
+		case 9:
+			return rParams[r.Intn(len(rParams))] + []string{`:x`, `\`, `\:`}[r.Intn(3)]
 		case 0:
 			return `a\:b`
 		case 1:
